@@ -49,6 +49,9 @@ type Property struct {
 	MaxParallel int
 	// WorkerTimeoutS overrides the per-worker wall-clock watchdog in seconds.
 	WorkerTimeoutS func(tier string) int
+	// Inconclusive returns a reason when the merged counters show that the monitor did not observe
+	// what it needs to decide ("" = fine).
+	Inconclusive func(counters map[string]int64) string
 	// Extra lets a property add keys to the evidence coverage object from merged counters.
 	Extra func(counters map[string]int64) map[string]interface{}
 }
